@@ -16,8 +16,19 @@ META = {
             "replay, with an independent Python fold of the same logs as oracle, and (b) a structural obligation on the SQL text of EVERY read "
             "method of the real ledgerstore.Store (captured over bun + a recording database/sql driver for a lattice of PIT / expand / filter "
             "parameters) and on every `language sql` function of 0-init-schema.sql: each base-table reference is restricted to the store's ledger.  "
-            "Stage 2 (model level only): see the `stage2` block of the evidence.",
-    "note": "Not covered: executing the SQL.  The PostgreSQL projection (triggers of 0-init-schema.sql) and the read queries are never run; the "
+            "Stage 2 (MODEL LEVEL ONLY): extract/plpgsql (lark) re-translates 0-init-schema.sql on every run into Generated/Schema.lean (one "
+            "structure per table, one definition per PL/pgSQL function / trigger: handle_log, insert_transaction, insert_posting, insert_move, "
+            "upsert_account, update/delete_*_metadata, revert_transaction, the four history triggers) over the combinators of Model/Store/Sql.lean; "
+            "Lean theorems evaluate that generated projection in the kernel: projection_refines_replay_partial_small_scope (all 316 histories of "
+            "<= 2 entries over a small alphabet: every difference from replay lies at an (account, asset) with one of two named shapes, no row of "
+            "another ledger is touched), projection_refines_replay_partial_example, and the refutations projection_effective_volumes_null "
+            "(design 6 #24), projection_self_posting_breaks_volumes (new), projection_timestamp_offset_dropped (#25), "
+            "get_account_balance_before_witness (#22, latent); the same comparison runs executably on every generated history of the run and on "
+            "an exhaustive enumeration to depth 3 (quick) / 4 (thorough).  The full projection_refines_replay (induction over arbitrary log "
+            "sequences through the generated definitions) and reads_equal_replay (what the Go query builders compute) are NOT proved.",
+    "note": "Stage 2 rests on Model/Store/Sql.lean, my reading of PostgreSQL (three-valued logic, select-into assigning NULLs when no row is "
+            "returned, on-conflict, row-level after triggers, jsonb operators, ::timestamp dropping the zone) - TRUSTED, nothing can execute SQL here; "
+            "its findings are model-level replays.  Not covered: executing the SQL.  The PostgreSQL projection (triggers of 0-init-schema.sql) and the read queries are never run; the "
             "ledger predicate is a syntactic obligation on captured text, what the queries COMPUTE is not compared with replay here.  Trusted: Lean "
             "kernel (axioms propext/Classical.choice/Quot.sound at most); Store.replay as the reading of 'the replay of the log'; the Go harness and "
             "its generator; bun's rendering as captured; the little SQL block parser of checks/c04sql.py (fails loudly on shapes it does not know) "
@@ -301,6 +312,178 @@ def check_schema_functions(ctx, ledger_funcs, fns):
     return st, detail
 
 
+# ---------------------------------------------------------------- stage 2: the generated PL/pgSQL projection against replay (model level)
+
+DRIVER_SQL = os.path.join(LEAN, ".lake", "build", "bin", "driver_sql")
+MODEL_NOTE = ("MODEL-LEVEL replay: the history is projected by Generated/Schema.lean (0-init-schema.sql translated on this run, semantics of "
+              "lean/Model/Store/Sql.lean) and compared with Store.replay; it cannot be run on PostgreSQL in this sandbox.  Re-run: "
+              "bin/check C04 --replay <this file>")
+SHAPE_SELF = "posting from a new account to itself"
+SHAPE_BACK = "move dated before all existing moves"
+SHAPE_ZONE = "timestamp written with a non-UTC offset"
+
+
+def run_driver_sql(area, infile, outfile, timeout=3000):
+    with open(infile) as fin:
+        p = subprocess.run([DRIVER_SQL, area], stdin=fin, capture_output=True, text=True, timeout=timeout)
+    with open(outfile, "w") as fh:
+        fh.write(p.stdout)
+    return p
+
+
+def py_shapes(inp):
+    """Independent recomputation (from the input line) of the shapes of history that explain a discrepancy: per ledger the
+    (account, asset) pairs hit by a posting from a not-yet-existing account to itself, those that get a move dated before every
+    existing move of the pair while the account already existed, and whether a transaction carries a UTC offset."""
+    res = {}
+    for name in inp["ledgers"]:
+        seen, moves = set(), collections.defaultdict(list)
+        self_fresh, back, zoned = set(), set(), False
+        for l in inp["logs"]:
+            if l["ledger"] != name:
+                continue
+            t = l["type"]
+            if t in ("NEW_TRANSACTION", "REVERTED_TRANSACTION"):
+                tx = l["tx"]
+                zoned = zoned or bool(tx.get("tz"))
+                ts = tx["timestamp"]
+                for p in tx["postings"]:
+                    existed = {p["source"]: p["source"] in seen, p["destination"]: p["destination"] in seen}
+                    if p["source"] == p["destination"] and not existed[p["source"]]:
+                        self_fresh.add((p["source"], p["asset"]))
+                    for c in (p["source"], p["destination"]):
+                        earlier = moves[(c, p["asset"])]
+                        if existed[c] and earlier and not any(e <= ts for e in earlier):
+                            back.add((c, p["asset"]))
+                        earlier.append(ts)
+                    seen.update((p["source"], p["destination"]))
+                if t == "NEW_TRANSACTION":
+                    seen.update((l.get("accountMetadata") or {}).keys())
+            elif t == "SET_METADATA" and l["targetType"] == "ACCOUNT":
+                seen.add(l["targetId"])
+        res[name] = (self_fresh, back, zoned)
+    return res
+
+
+def py_explanation(shapes, d):
+    self_fresh, back, zoned = shapes[d["ledger"]]
+    key = (d["account"], d["asset"])
+    if zoned and d["class"] in ("transaction-timestamp", "effective-volumes", "effective-volumes-null"):
+        return SHAPE_ZONE
+    if d["class"] in ("volumes", "effective-volumes") and key in self_fresh:
+        return SHAPE_SELF
+    if d["class"] == "effective-volumes-null" and key in back:
+        return SHAPE_BACK
+    return "unexplained"
+
+
+def report_model_discrepancies(ctx, inp, out, counts, stream):
+    """one violation per distinct (class, shape) of a history"""
+    if "driver_error" in out:
+        ctx.l2_broken.append({"stream": stream + "-driver-error", "id": inp.get("id"), "input": inp, "model": out})
+        return
+    shapes = py_shapes(inp)
+    by = {}
+    for d in out["discrepancies"]:
+        want = py_explanation(shapes, d)
+        if want != d["explanation"]:
+            ctx.l2_broken.append({"stream": stream + "-shape-classification", "id": inp.get("id"), "input": inp,
+                                  "impl": want, "model": d})
+        by.setdefault((d["class"], d["explanation"]), []).append(d)
+    for (cls, shape), ds in sorted(by.items()):
+        counts[cls + " | " + shape] += 1
+        ctx.violation({"property": "C04", "class": cls, "shape": shape, "level": "model"},
+                      "generated SQL projection differs from the replay of the log: %s at %s/%s (%s)" % (cls, ds[0]["account"] or "tx " + str(ds[0]["tx"]), ds[0]["asset"], shape),
+                      {"area": "storesql", "input": {k: v for k, v in inp.items() if k not in ("corpus",)}, "model_level_only": True, "note": MODEL_NOTE,
+                       "discrepancies": ds[:4]})
+    if out["frame"]:
+        counts["frame | unexplained"] += 1
+        ctx.violation({"property": "C04", "class": "frame", "shape": "unexplained", "level": "model"},
+                      "generated SQL projection: inserting log(s) %s changed rows of another ledger" % out["frame"],
+                      {"area": "storesql", "input": inp, "model_level_only": True, "note": MODEL_NOTE})
+
+
+def stage2(ctx, sv_inputs, sv_impl):
+    info = {}
+    summary_path = os.path.join(BUILD, "schema.json")
+    if os.path.exists(summary_path):
+        sm = json.load(open(summary_path))
+        info["regenerated"] = {"source_sha256": sm["source_sha256"], "tables": {k: len(v) for k, v in sm["tables"].items()},
+                               "translated_functions": sm["translated_functions"],
+                               "not_translated": [x["name"] + ": " + x["why"] for x in sm["not_translated"]],
+                               "triggers": ["%s: after %s on %s -> %s" % (t["name"], t["event"], t["table"], t["function"]) for t in sm["triggers"]]}
+    ok, outp = lake_build(["driver_sql"])
+    if not ok:
+        ctx.l2_broken.append({"stream": "driver_sql-build", "detail": outp[-1500:]})
+        ctx.cov["stage2"] = info
+        return
+    counts = collections.Counter()
+    # ---- the histories of this run (or the replayed one)
+    inputs = None
+    if ctx.replay_file:
+        rp = json.load(open(ctx.replay_file))["replay"]
+        if rp.get("area") == "storesql":
+            inputs = [dict(rp["input"], id=0)]
+    elif sv_inputs is not None:
+        inputs = corpus_inputs("storesql") + sv_inputs
+        for k, r in enumerate(inputs):
+            if r.get("corpus") and "id" not in r:
+                r["id"] = -(k + 1)
+    if inputs:
+        inf, outf = ctx.path("storesql.in.jsonl"), ctx.path("storesql.model.jsonl")
+        write_jsonl(inf, inputs)
+        p = run_driver_sql("storesql", inf, outf)
+        if p.returncode != 0:
+            ctx.l2_broken.append({"stream": "storesql-driver", "detail": (p.stdout + p.stderr)[-2000:]})
+        else:
+            outs = {r["id"]: r["out"] for r in read_jsonl(outf)}
+            clean = 0
+            for inp in inputs:
+                o = outs.get(inp["id"])
+                if o is None:
+                    ctx.l2_broken.append({"stream": "storesql-missing-output", "id": inp["id"]})
+                    continue
+                report_model_discrepancies(ctx, inp, o, counts, "storesql")
+                if "driver_error" not in o and not o["discrepancies"] and not o["frame"]:
+                    clean += 1
+            info["histories"] = {"compared": len(inputs), "agreeing_on_every_clause": clean,
+                                 "histories_by_discrepancy (class | shape)": dict(sorted(counts.items())),
+                                 "rows_projected": {k: sum(o["rows"][k] for o in outs.values() if "rows" in o) for k in
+                                                    ("logs", "transactions", "moves", "accounts", "transactions_metadata", "accounts_metadata")}}
+            # the Go half of #25: what InsertLogs would store carries the offset the client wrote
+            zs = [z for i in inputs for z in (sv_impl or {}).get(i["id"], {}).get("storedTimestamps", [])]
+            bad = [z for z in zs if z["text"].endswith("Z") or not re.search(r"[+-]\d\d:\d\d$", z["text"])]
+            info["stored_timestamps_with_offset (Go half of design 6 #25, observed on the real json.Marshal of the log payload)"] = {
+                "transactions_written_with_an_offset": len(zs), "offset_present_in_stored_text": len(zs) - len(bad),
+                "sample": zs[:2]}
+            if bad:
+                ctx.l2_broken.append({"stream": "storesql-stored-timestamp", "detail": bad[:3]})
+    # ---- exhaustive small scope
+    if not ctx.replay_file:
+        depth = 3 if ctx.quick else 4
+        inf, outf = ctx.path("storesql-enum.in.jsonl"), ctx.path("storesql-enum.model.jsonl")
+        write_jsonl(inf, [{"id": 0, "depth": depth}])
+        p = run_driver_sql("storesql-enum", inf, outf)
+        rows = read_jsonl(outf) if p.returncode == 0 else []
+        if not rows or "driver_error" in rows[0]["out"]:
+            ctx.l2_broken.append({"stream": "storesql-enum-driver", "detail": (p.stdout + p.stderr)[-2000:]})
+        else:
+            o = rows[0]["out"]
+            info["small_scope_enumeration"] = {"depth": depth, "histories": o["histories"], "with_a_discrepancy": o["discrepant"],
+                                               "frame_breaks": o["frameBreaks"], "histories_by_discrepancy (class | shape)": o["counts"],
+                                               "alphabet": "ledgers l (all entry kinds) and m; accounts a, b (c for script metadata); one asset; amount 1; "
+                                                           "timestamps before / at / after everything; see lean/Model/Store/Search.lean"}
+            for w in o["witnesses"]:
+                cls, shape = [x.strip() for x in w["key"].split("|")]
+                inp = {"ledgers": w["ledgers"], "logs": w["logs"], "probe": {"accounts": ["a", "b", "c"], "assets": ["X"], "txids": [0, 1, 2], "refs": [], "iks": []}}
+                ctx.violation({"property": "C04", "class": cls, "shape": shape, "level": "model"},
+                              "generated SQL projection differs from the replay of the log: %s (%s) — shortest history of the enumeration" % (cls, shape),
+                              {"area": "storesql", "input": inp, "model_level_only": True, "note": MODEL_NOTE})
+            ctx.cov["evaluations"] = ctx.cov.get("evaluations", 0) + o["histories"]
+    ctx.cov["stage2"] = info
+    return len(inputs or [])
+
+
 # ---------------------------------------------------------------- the check
 
 
@@ -314,6 +497,18 @@ def run(ctx):
         "checks/c20.py tokenize(): PostgreSQL tokenizer shared with C20",
         "bun 1.1.16 rendering as captured; SQL is never executed (no PostgreSQL in the sandbox)",
     ]
+    ctx.cov["trusted_base"] += [
+        "STAGE 2: lean/Model/Store/Sql.lean (meaning of the SQL subset: tables as row lists in seq order, NULL and three-valued logic, select-into "
+        "without strict, on conflict, row-level after triggers, jsonb operators, casts; numtext / tstext / jsontext devices) - my reading of PostgreSQL, never executed",
+        "STAGE 2: extract/plpgsql/translate.py (lark LALR grammar of the PL/pgSQL subset; stops on anything else) and lean/Model/Store/Project.lean "
+        "(encoding of a log entry as the COPY row and JSON payload, reading of the tables, shape classification)",
+    ]
+    # ---- regenerate Generated/*.lean from the sources of this run (Schema.lean: the PL/pgSQL projection)
+    for name, f in regen.GENERATORS:
+        if name == "schema" or not os.path.exists(os.path.join(LEAN, "Generated", name.capitalize() + ".lean")):
+            err = f()
+            if err and name == "schema":
+                ctx.l1_broken.append("extract/plpgsql could not translate %s: %s" % (SCHEMA_SQL, err))
     ctx.l1()
     have_driver = ctx.ensure_driver()
     if not ctx.ensure_harness():
@@ -323,10 +518,13 @@ def run(ctx):
     n = 1500 if ctx.quick else 30000
     r = run_area(ctx, "storeview", n, have_driver)
     sv_eval = 0
+    sv_inputs, sv_impl = None, None
     if r is not None:
         inputs, impl, model = r
+        sv_inputs, sv_impl = [i for i in inputs if not i.get("corpus")], impl
         if model is not None:
-            compare(ctx, "storeview:inmemory=replay", inputs, impl, model)
+            compare(ctx, "storeview:inmemory=replay", inputs, impl, model,
+                    proj_impl=lambda i, o: {k: v for k, v in o.items() if k != "storedTimestamps"})
         stats = oracle_storeview(ctx, inputs, impl)
         seen, nontrivial = set(), 0
         for i in inputs:
@@ -374,6 +572,9 @@ def run(ctx):
                                             "functions_taking_ledger_first": ledger_funcs}
 
     ctx.cov["evaluations"] = sv_eval + rs_eval
+    # ---------------- stage 2: the generated PL/pgSQL projection (model level)
+    n2 = stage2(ctx, sv_inputs, sv_impl) or 0
+    ctx.cov["evaluations"] += n2
     ctx.cov["distinct_nontrivial"] = ctx.cov.get("storeview", {}).get("distinct_nontrivial", 0) + rs_eval
     ctx.cov["rule"] = ("storeview: random bucket histories (1-3 ledgers, <= %d log entries, NEW_TRANSACTION with back-/future-/equal-dated "
                        "timestamps, self-postings, 2^64+-1 and 2^70 amounts, REVERTED_TRANSACTION, SET/DELETE_METADATA on accounts and transactions, "
@@ -383,10 +584,21 @@ def run(ctx):
         "1a/1b replay + laws": "proved (Lean, unbounded): see coverage.theorems",
         "1c in-memory store = replay": "differential (Lean model) + independent Python fold (L3)",
         "1d ledger predicate": "structural obligation on captured SQL text of every ledgerstore read method, on InsertLogs' COPY rows and on the schema's `language sql` read functions",
+        "2e translation": "regenerated on every run (extract/plpgsql -> Generated/Schema.lean); a construct outside the grammar stops the check",
+        "2f projection vs replay": "kernel-checked on all histories of <= 2 entries + one rich example (partial theorems); executable comparison on the "
+                                   "generated histories of the run and on the enumeration to depth 3/4; clauses (i),(ii) REFUTED on two shapes (findings), (iii)-(v) no counterexample; "
+                                   "NO unbounded proof about the generated definitions",
+        "2g read functions / read queries": "get_account_balance(_before) transcribed by hand: latent defect witnessed; the Go query builders are NOT modelled "
+                                            "(no render/eval model, reads_equal_replay not stated)",
     }
-    ctx.cov["search"] = "the generated histories of this run on the real in-memory store (every probe compared with an independent fold) and the SQL text of every read method on the parameter lattice"
+    ctx.cov["search"] = ("the generated histories of this run on the real in-memory store (every probe compared with an independent fold); the SQL text of every read "
+                         "method on the parameter lattice; the same histories and every history of <= %d entries over the alphabet of lean/Model/Store/Search.lean run "
+                         "through the CURRENT Generated/Schema.lean against Store.replay (model level)" % (3 if ctx.quick else 4))
     ctx.assumptions += [
-        "SQL text is captured, never executed: what the queries and the PL/pgSQL projection compute is NOT compared with replay at stage 1",
+        "SQL text is captured, never executed: what the read queries compute is NOT compared with replay; what the PL/pgSQL projection computes is compared "
+        "only through its Lean translation (stage 2)",
+        "stage 2: log payloads never hold a null metadata / accountMetadata object (the commander always writes maps); sequence values burnt by on-conflict are not modelled; "
+        "revision dates of the metadata history tables are not compared (only the sequence of values)",
         "histories are the ones the commander writes: per-ledger log ids and transaction ids count up, a revert targets an existing transaction (a revert of an unknown id makes the in-memory store index an empty slice)",
         "one InMemoryStore per ledger (the type has no ledger name); ledger independence of the SQL store is the predicate obligation of stage 1d",
     ]
